@@ -132,6 +132,10 @@ size_t varintPFOREncode(uint8_t *dst, const uint64_t *values, uint32_t count,
 
     /* Compute metadata */
     varintPFORComputeThreshold(values, count, threshold, meta);
+    if (count > 0 && meta->count == 0) {
+        /* Out of memory in ComputeThreshold: nothing can be encoded */
+        return 0;
+    }
 
     /* Write header: min, width, count */
     dst += varintTaggedPut64(dst, meta->min);
@@ -150,9 +154,9 @@ size_t varintPFOREncode(uint8_t *dst, const uint64_t *values, uint32_t count,
     if (meta->exceptionCount > 0) {
         exceptions = malloc(meta->exceptionCount * sizeof(Exception));
         if (!exceptions) {
-            /* Out of memory - fall back to encoding without exception tracking
-             * This will still produce valid output, just not optimal */
-            meta->exceptionCount = 0;
+            /* Out of memory - outliers cannot be stored without the
+             * exception list, so report failure */
+            return 0;
         }
     }
 
